@@ -81,10 +81,15 @@ def worker_env(pid, boundscheck, thash):
 class Worker:
     """One worker subprocess speaking a line protocol over pipes."""
 
-    def __init__(self, pid, env, errpath, pyopt=False, nojit=False):
+    def __init__(self, pid, env, errpath, pyopt=False, nojit=False, threads=0):
         self.err = open(errpath, "ab")
         self.pyopt = bool(pyopt)
         self.nojit = bool(nojit)
+        self.threads = int(threads or 0)
+        if self.threads:
+            # threads: the numba thread pool size of the process (an ambient setting, constant
+            # within a run; every other worker is pinned to one thread)
+            env = dict(env, NUMBA_NUM_THREADS=str(self.threads))
         if nojit:
             # nojit: numba's documented switch NUMBA_DISABLE_JIT=1 (the kernels run as plain
             # Python - debugger / coverage runs), for the cases that ask for it
@@ -166,8 +171,8 @@ def run_pool(pid, cases, env, workdir, nworkers, default_timeout, startup=240.0,
         else:
             # (one chunk = one generator and one interpreter mode, so that a worker is not
             # restarted between cases)
-            chunks.setdefault((c["gen"], bool(c.get("pyopt")), bool(c.get("nojit"))),
-                              []).append(c)
+            chunks.setdefault((c["gen"], bool(c.get("pyopt")), bool(c.get("nojit")),
+                               int(c.get("threads") or 0)), []).append(c)
     nslots = max(1, nworkers)
     allchunks = []
     for g, lst in chunks.items():
@@ -184,8 +189,8 @@ def run_pool(pid, cases, env, workdir, nworkers, default_timeout, startup=240.0,
         errpath = os.path.join(workdir, "worker-%d.err" % k)
         w = None
 
-        def fresh_worker(pyopt=False, nojit=False):
-            ww = Worker(pid, env, errpath, pyopt, nojit)
+        def fresh_worker(pyopt=False, nojit=False, threads=0):
+            ww = Worker(pid, env, errpath, pyopt, nojit, threads)
             msg = ww.recv(startup)
             if not (isinstance(msg, dict) and msg.get("ready")):
                 ww.kill()
@@ -199,10 +204,12 @@ def run_pool(pid, cases, env, workdir, nworkers, default_timeout, startup=240.0,
                 break
             for case in chunk:
                 if w is None or case.get("fresh") or w.pyopt != bool(case.get("pyopt")) \
-                        or w.nojit != bool(case.get("nojit")):
+                        or w.nojit != bool(case.get("nojit")) \
+                        or w.threads != int(case.get("threads") or 0):
                     if w is not None:
                         w.close()
-                    w, bad = fresh_worker(bool(case.get("pyopt")), bool(case.get("nojit")))
+                    w, bad = fresh_worker(bool(case.get("pyopt")), bool(case.get("nojit")),
+                                          int(case.get("threads") or 0))
                     if w is None:
                         with lock:
                             results.append({
